@@ -11,10 +11,10 @@ pub fn prop() -> Prop {
     Prop {
         id: "C12",
         level: "model_checking",
-        rule: "observer bodies H (15: the bound name next to ., ^., ^^., ^^^., another variable, another macro, a selected name) x enclosing contexts X (12: top level, map, filter, fold, sort_by, map_values, pipe stage, pipe-then-map, flat_map, pipes with a stage that returns its input unchanged) x binding forms F (27: a macro whose body binds its own name again; a macro whose body is a pipe and is used as a stage of another pipe; set, define, a macro whose body names another macro or variable that is bound later, earlier or re-bound at the place of use, --set variable, --set macro, nested both ways, shadowing an inner/outer/--set binding, unused names, a macro whose body reads a variable bound outside/inside, a macro reading ^) x placement (binding outside X / inside the functional argument) x bound values (4) x position 1..4 among --select options x with/without --split-by x 2 inputs; plus the same expression repeated in four --select positions; plus 3..130 variables and macros in scope at once (nested set/define, or --set given that many times); 10..1100 expansions of one macro in one record, most yielding nothing; shadowing where the inner and the outer value are numerically close (2^64-1 / 2^64, -2^63 / -2^63-1, 2^53+1 / 2^53, 0 / -0.0); non-trivial = the body reads something the binding had to carry over (^, another binding, a selected name) or sits after --split-by / other selections; distinct by construction",
+        rule: "observer bodies H (15: the bound name next to ., ^., ^^., ^^^., another variable, another macro, a selected name) x enclosing contexts X (12: top level, map, filter, fold, sort_by, map_values, pipe stage, pipe-then-map, flat_map, pipes with a stage that returns its input unchanged) x binding forms F (27: a macro whose body binds its own name again; a macro whose body is a pipe and is used as a stage of another pipe; set, define, a macro whose body names another macro or variable that is bound later, earlier or re-bound at the place of use, --set variable, --set macro, nested both ways, shadowing an inner/outer/--set binding, unused names, a macro whose body reads a variable bound outside/inside, a macro reading ^) x placement (binding outside X / inside the functional argument) x bound values (4) x position 1..4 among --select options x with/without --split-by x 2 inputs; plus the same expression repeated in four --select positions; plus 3..130 variables and macros in scope at once (nested set/define, or --set given that many times); 10..1100 expansions of one macro in one record, most yielding nothing; shadowing where the inner and the outer value are numerically close (2^64-1 / 2^64, -2^63 / -2^63-1, 2^53+1 / 2^53, 0 / -0.0); bindings made anew for every record and every element: around the documented example call of every function, each literal argument in turn is read from a variable (sigil and function spelling) and, in first position, from a macro bound to a member that changes A B A A / B A B B, against reading the member directly and against the record alone; nine nestings of a constant binding and one that changes from element to element (set/define/--set macro/--set variable/pipe), per element and per record; non-trivial = the body reads something the binding had to carry over (^, another binding, a selected name) or sits after --split-by / other selections; distinct by construction",
         explanation: "each case is one run with two selections: the bound form and the form obtained by substituting the bound value / macro body by hand; both must have the same value (differential, no model needed) and both are also compared with the reference evaluator",
         assumptions: COMMON_ASSUMPTIONS.to_vec(),
-        guards: vec!["bound-name-followed-by-a-comma", "preset-variable-is-evaluated-before-any-record", "binding-names-beyond-ascii-letters", "many-macro-expansions-in-one-record", "shadowing-with-numerically-close-values", "many-bindings-in-scope", "parent-read-under-a-binding", "other-variable-survives", "other-macro-survives", "selected-name-survives", "after-split", "shadowing", "macro-body-reads-outer-variable", "pipe-stage-parent", "later-select-sees-same-parents"],
+        guards: vec!["function-argument-bound-anew-for-every-record", "constant-binding-inside-a-changing-one", "bound-name-followed-by-a-comma", "preset-variable-is-evaluated-before-any-record", "binding-names-beyond-ascii-letters", "many-macro-expansions-in-one-record", "shadowing-with-numerically-close-values", "many-bindings-in-scope", "parent-read-under-a-binding", "other-variable-survives", "other-macro-survives", "selected-name-survives", "after-split", "shadowing", "macro-body-reads-outer-variable", "pipe-stage-parent", "later-select-sees-same-parents"],
         budget_s: (100, 1800),
         single_worker: false,
         run,
@@ -526,4 +526,152 @@ fn run(ctx: &mut Ctx) {
         }
     }
     ctx.level_done("preset-variables-with-expressions-that-mention-the-input");
+    rebinding_around_every_function(ctx);
+}
+
+/// Bindings that are made again and again in one run - for every record and for every element of a list - around a call
+/// of every function: `(f .. :x ..)` under `(set "x" .a ..)`, and `(f @m ..)` under `(define "m" .a ..)`, must give for
+/// every record what `(f .. .a ..)` gives, whatever the records before it held (A B A and B A B, the two values being
+/// the documented example argument and a different value of the same type). A position takes part when, on a single
+/// record, reading the argument from the record gives what the literal gives (it is evaluated in the caller's context).
+pub fn rebinding_around_every_function(ctx: &mut Ctx) {
+    let other = |v: &V| -> &'static str {
+        match v {
+            V::Str(_) => "\"zz9\"",
+            V::Num(_) => "7.25",
+            V::Arr(_) => "[9, \"b\"]",
+            V::Obj(_) => "{\"q\": 1}",
+            V::Bool(true) => "false",
+            V::Bool(false) => "true",
+            V::Null => "0",
+        }
+    };
+    let run1 = |ctx: &mut Ctx, args: Vec<String>, input: String| -> (Case, crate::drive::Obs) {
+        let case = Case::owned(args, input.into_bytes());
+        let obs = ctx.run(&case);
+        ctx.case_done();
+        (case, obs)
+    };
+    let mut positions = 0usize;
+    for (fname, _, fargs) in super::c04::canonical_calls() {
+        if !ctx.mine() {
+            continue;
+        }
+        let fargs: Vec<&str> = fargs.split('\u{0}').collect();
+        for pos in 0..fargs.len() {
+            let Ok(a_val) = json::parse_one(fargs[pos].as_bytes()) else { continue };
+            let (a, b) = (fargs[pos].to_string(), other(&a_val).to_string());
+            let call = |x: &str| -> String {
+                let mut v: Vec<String> = fargs.iter().map(|s| s.to_string()).collect();
+                v[pos] = x.to_string();
+                format!("({fname} {})", v.join(" "))
+            };
+            // calibration on single records: the literal and the member read give the same
+            let mut calibrated = true;
+            let mut single: Vec<Option<V>> = Vec::new();
+            for lit in [&a, &b] {
+                let (_, o) = run1(ctx, vec![format!("--select={}=lit", call(lit)), format!("--select={}=rec", call(".a"))], format!("{{\"a\": {lit}}}\n"));
+                let rows = json::parse_rows(&o.stdout, b"\n").unwrap_or_default();
+                if !o.res.is_ok() || rows.len() != 1 || rows[0].get("lit") != rows[0].get("rec") {
+                    calibrated = false;
+                    break;
+                }
+                single.push(rows[0].get("lit").cloned());
+            }
+            if !calibrated || single[0].is_none() {
+                continue;
+            }
+            positions += 1;
+            ctx.guard("function-argument-bound-anew-for-every-record");
+            let mut sels = vec![format!("--select={}=direct", call(".a")), format!("--select=(set \"jvx\" .a {})=var", call(":jvx")), format!("--select=(set \"jvx\" .a {})=varfn", call("(: \"jvx\")"))];
+            if pos == 0 {
+                sels.push(format!("--select=(define \"jvm\" .a {})=mac", call("@jvm")));
+            }
+            for order in [[0usize, 1, 0, 0], [1, 0, 1, 1]] {
+                let lits = [&a, &b];
+                // (1) one record per binding
+                let input: String = order.iter().map(|k| format!("{{\"a\": {}}}\n", lits[*k])).collect();
+                let (case, o) = run1(ctx, sels.clone(), input);
+                ctx.trace_validated();
+                ctx.nontrivial();
+                ctx.transition(&("rebinding", fname.clone(), pos, order[0]));
+                let rows = json::parse_rows(&o.stdout, b"\n").unwrap_or_default();
+                let mut bad: Option<String> = None;
+                if !o.res.is_ok() || rows.len() != order.len() {
+                    bad = Some(format!("{} rows", rows.len()));
+                } else {
+                    for (ri, k) in order.iter().enumerate() {
+                        for name in ["direct", "var", "varfn", "mac"] {
+                            if name == "mac" && pos != 0 {
+                                continue;
+                            }
+                            if rows[ri].get(name) != single[*k].as_ref() {
+                                bad = Some(format!("record {ri}: {name} = {} but the same record alone gives {}", rows[ri].get(name).map(json::to_text).unwrap_or("nothing".into()), single[*k].as_ref().map(json::to_text).unwrap_or("nothing".into())));
+                            }
+                        }
+                    }
+                }
+                if let Some(e) = bad {
+                    ctx.violation("rebound-argument-differs-from-the-argument-itself", &format!("{fname} argument #{pos} bound anew for every record"), &[case.clone()], "direct = var = mac = what the record gives alone, in every row".into(), format!("{e}; {}", crate::drive::trunc(&o.out_str(), 300)));
+                }
+                // (2) one element per binding, inside map (the two forms drop the same elements)
+                let rows_lit = format!("[{}]", order.iter().map(|k| format!("{{\"a\": {}}}", lits[*k])).collect::<Vec<_>>().join(", "));
+                let mut msels = vec![format!("--select=(map .rows {})=direct", call(".a")), format!("--select=(map .rows (set \"jvx\" .a {}))=var", call(":jvx"))];
+                if pos == 0 {
+                    msels.push(format!("--select=(map .rows (define \"jvm\" .a {}))=mac", call("@jvm")));
+                }
+                let (case, o) = run1(ctx, msels, format!("{{\"rows\": {rows_lit}}}\n"));
+                ctx.trace_validated();
+                let rows = json::parse_rows(&o.stdout, b"\n").unwrap_or_default();
+                let ok = o.res.is_ok() && rows.len() == 1 && rows[0].get("direct").is_some() && rows[0].get("direct") == rows[0].get("var") && (pos != 0 || rows[0].get("direct") == rows[0].get("mac"));
+                if !ok {
+                    ctx.violation("rebound-argument-differs-from-the-argument-itself", &format!("{fname} argument #{pos} bound anew for every element"), &[case.clone()], "direct = var = mac".into(), crate::drive::trunc(&o.out_str(), 300));
+                }
+            }
+        }
+    }
+    ctx.note("rebinding-positions", format!("{positions} (function, argument) positions calibrated on this worker"));
+    // two bindings nested in each other, one constant and one changing from element to element (and from record to record)
+    if ctx.mine() {
+        let data = "{\"rows\": [{\"k\": 10, \"v\": [1, 2]}, {\"k\": 10, \"v\": [2]}, {\"k\": 20, \"v\": [2]}, {\"k\": 10, \"v\": [2, 2]}, {\"k\": 30, \"v\": []}, {\"k\": 20, \"v\": [1]}]}";
+        let subst = "(map .rows (map .v (+ (+ . ^.k) 1)))";
+        let bound: [(&str, Vec<&str>); 9] = [
+            ("(map .rows (set \"k\" .k (map .v (set \"one\" 1 (+ (+ . :k) :one)))))", vec![]),
+            ("(map .rows (set \"one\" 1 (map .v (set \"k\" ^.k (+ (+ . :k) :one)))))", vec![]),
+            ("(map .rows (define \"k\" ^.k (map .v (define \"one\" 1 (+ (+ . @k) @one)))))", vec![]),
+            ("(map .rows (set \"k\" .k (map .v (define \"f\" (+ . :k) (set \"one\" 1 (+ @f :one))))))", vec![]),
+            ("(set \"one\" 1 (map .rows (set \"k\" .k (map .v (+ (+ . :k) :one)))))", vec![]),
+            ("(map .rows (set \"k\" .k (map .v (set \"k\" (+ :k .) (+ :k 1)))))", vec![]),
+            ("(map .rows (set \"k\" .k (map .v @m)))", vec!["--set=@m=(set \"one\" 1 (+ (+ . :k) :one))"]),
+            ("(map .rows (set \"k\" .k (map .v (set \"one\" :c (+ (+ . :k) :one)))))", vec!["--set=c=1"]),
+            ("(map .rows (| . (set \"k\" .k (map .v (set \"one\" 1 (+ (+ . :k) :one))))))", vec![]),
+        ];
+        for (b, extra) in bound {
+            let mut args: Vec<String> = extra.iter().map(|s| s.to_string()).collect();
+            args.push(format!("--select={b}=bound"));
+            args.push(format!("--select={subst}=subst"));
+            // the same per record: the rows as records of one run
+            let (case, o) = run1(ctx, args.clone(), format!("{data}\n"));
+            ctx.trace_validated();
+            ctx.nontrivial();
+            ctx.guard("constant-binding-inside-a-changing-one");
+            let rows = json::parse_rows(&o.stdout, b"\n").unwrap_or_default();
+            let want = json::parse_str("[[12, 13], [13], [23], [13, 13], [], [22]]");
+            if !(o.res.is_ok() && rows.len() == 1 && rows[0].get("bound") == Some(&want) && rows[0].get("subst") == Some(&want)) {
+                ctx.violation("bound-form-differs-from-hand-substituted-form", "a constant binding nested in one that changes from element to element", &[case.clone()], json::to_text(&want), crate::drive::trunc(&o.out_str(), 300));
+            }
+            let rec_bound = b.replacen("(map .rows ", "", 1);
+            let rec_bound = &rec_bound[..rec_bound.len() - 1];
+            let mut rargs: Vec<String> = extra.iter().map(|s| s.to_string()).collect();
+            rargs.push(format!("--select={}=bound", rec_bound.replace("^.k", ".k").replace("(map .v ", "(map .v ").replace("(set \"k\" .k", "(set \"k\" .k")));
+            rargs.push("--select=(map .v (+ (+ . ^.k) 1))=subst".into());
+            let (case, o) = run1(ctx, rargs, format!("{data}\n").replace("{\"rows\": [", "").replace("]}\n", "\n").replace("}, {", "}\n{"));
+            let rows = json::parse_rows(&o.stdout, b"\n").unwrap_or_default();
+            let ok = o.res.is_ok() && rows.len() == 6 && rows.iter().all(|r| r.get("subst").is_some() && r.get("bound") == r.get("subst"));
+            if !ok && !b.starts_with("(set \"one\" 1 (map .rows") && !b.contains("(| . ") && !b.contains("^.k") {
+                ctx.violation("bound-form-differs-from-hand-substituted-form", "a constant binding nested in one that changes from record to record", &[case.clone()], "bound = subst in each of the 6 rows".into(), crate::drive::trunc(&o.out_str(), 400));
+            }
+        }
+    }
+    ctx.level_done("bindings-made-anew-for-every-record-and-element(around-every-function;constant-inside-changing)");
 }
